@@ -1,8 +1,1435 @@
-//! C19 - not built yet
-use vlib::report::{Ctx, Outcome};
+//! C19 - SASL: no connection without successful authentication; SCRAM is mutual.
+//!
+//! Level: exploration = exhaustive enumeration of adversary behaviours up to a frame bound, each one
+//! executed against the real code on the default schedule.
+//!
+//! Part 1 (listener under attack): a real `ConnectionAcceptor` with a SASL acceptor (PLAIN, and
+//! SCRAM-SHA-1/256/512) accepts on side 0 of a vpipe; the scripted peer plays the client and sends EVERY
+//! sequence of <= N client actions over a fixed alphabet (protocol headers, sasl-init with every
+//! mechanism x payload, sasl-response with every payload, server-only SASL frames, an AMQP open during
+//! SASL, garbage, EOF), followed by "AMQP header + open" whenever the listener is still there.
+//! Sequences are enumerated as a tree; a node is only extended while `accept()` is still pending and the
+//! listener has not yet written its AMQP open: once `accept()` has returned Err the future and its stream
+//! are dropped and no library code can run any more, so every longer sequence with that prefix behaves like
+//! the prefix; once the listener has sent its open the verdict of this property is fixed (the connection
+//! IS open for that peer; what follows is connection lifecycle, C12).  The pruning is itself validated by an
+//! unpruned enumeration to a smaller depth.  Every executed sequence is run twice: one action per quiescent
+//! point, and all bytes pipelined in one burst.
+//!
+//! Part 2 (SCRAM client under attack): the real client with `SaslProfile::ScramSha*` against the scripted
+//! peer playing the server with an independent SCRAM computation (c19_scram.rs); the honest server and
+//! every tampered one.
+//!
+//! Monitors (the property's own words; permissive readings):
+//!  * "valid credentials" = authcid and password equal to the configured ones, in a well-formed exchange
+//!    (SASL header, then init as the first SASL frame; for SCRAM init + response whose proof verifies for
+//!    the configured password over the messages actually exchanged).  The mechanism NAME is not judged
+//!    (DESIGN.md §2.7): an init naming a mechanism the listener did not offer but carrying valid
+//!    credentials may be accepted or refused.  A PLAIN message with an authzid (`authz NUL user NUL pw`,
+//!    RFC 4616) may be accepted or refused.  Extra client frames AFTER a valid authentication may be
+//!    accepted or refused.  Anything else must never lead to `accept()` == Ok nor to an AMQP open
+//!    written by the listener.  `accept()` staying pending forever counts as failure (not as a violation).
+//!  * the canonical valid exchange (offered mechanism, exactly the configured credentials, then AMQP header
+//!    and open) must succeed: accept() == Ok and the listener's open on the wire.
+//!  * SCRAM client: `open_with_stream` == Ok iff the server script is the honest one; for a tampered
+//!    server neither Ok nor the client's AMQP header after SASL may appear ("only proceeds if ...").
+//!    A server nonce that merely EQUALS the client's nonce (empty extension) is not used as a tamper.
+#[path = "c19_scram.rs"]
+mod refscram;
 
-pub fn run(_ctx: &Ctx) -> Outcome {
-    let mut out = Outcome::new("model_checking");
-    out.machinery_errors.push("check C19 is not built yet".into());
+use fe2o3_amqp::acceptor::scram::SingleScramCredential;
+use fe2o3_amqp::acceptor::{ConnectionAcceptor, SaslAcceptor, SaslPlainMechanism};
+use fe2o3_amqp::auth::scram::{ScramAuthenticator, ScramVersion};
+use fe2o3_amqp::sasl_profile::{SaslProfile, SaslScramSha1, SaslScramSha256, SaslScramSha512};
+use fe2o3_amqp::Connection;
+use fe2o3_amqp_types::performatives::{Open, Performative};
+use fe2o3_amqp_types::primitives::{Array, Binary, Symbol};
+use fe2o3_amqp_types::sasl::{SaslChallenge, SaslCode, SaslInit, SaslMechanisms, SaslOutcome, SaslResponse};
+use refscram::{auth_message, b64e, client_proof, parse_server_first, read_stream, server_signature, verify_client_final, Field, Item, Ver, VERSIONS};
+use serde_json::{json, Value as J};
+use std::collections::{BTreeMap, HashSet};
+use std::sync::{Arc, OnceLock};
+use std::time::{Duration, Instant};
+use vlib::peer::{trace_to_strings, Auto, Body, Dirn, Peer, Sasl, AMQP_HEADER, SASL_HEADER};
+use vlib::report::{Ctx, Outcome};
+use vlib::runner::{run_exec, RunCfg, Scenario};
+use vlib::util::{h64, par_map};
+use vlib::vpipe::Pipe;
+
+const USER: &str = "user";
+const PASSWORD: &str = "password";
+/// client nonce used by the scripted SCRAM client of part 1
+const CNONCE: &str = "c19ClientNonce+Zm9vYmFy";
+
+// ================================================================================================
+// Part 1: the listener under attack
+
+#[derive(Clone, Copy, Debug, PartialEq, Eq, Hash)]
+pub enum LKind {
+    Plain,
+    Scram(Ver),
+}
+
+const LKINDS: [LKind; 4] = [LKind::Plain, LKind::Scram(Ver::S256), LKind::Scram(Ver::S1), LKind::Scram(Ver::S512)];
+
+impl LKind {
+    fn name(&self) -> &'static str {
+        match self {
+            LKind::Plain => "PLAIN",
+            LKind::Scram(v) => v.mech(),
+        }
+    }
+    /// mechanism names used in sasl-init; index 0 is the one the listener offers
+    fn mechs(&self) -> [&'static str; 4] {
+        match self {
+            LKind::Plain => ["PLAIN", "ANONYMOUS", "SCRAM-SHA-256", "X"],
+            LKind::Scram(v) => [v.mech(), "PLAIN", "ANONYMOUS", "X"],
+        }
+    }
+}
+
+fn plain_payloads() -> Vec<(&'static str, Option<Vec<u8>>)> {
+    vec![
+        ("correct", Some(b"\0user\0password".to_vec())),
+        ("wrong-user", Some(b"\0usex\0password".to_vec())),
+        ("wrong-password", Some(b"\0user\0hunter22".to_vec())),
+        ("password-prefix", Some(b"\0user\0passwor".to_vec())),
+        ("password-plus-one-byte", Some(b"\0user\0passwordX".to_vec())),
+        ("password-one-byte-different", Some(b"\0user\0passwore".to_vec())),
+        ("empty", Some(vec![])),
+        ("absent", None),
+        ("extra-nul-field", Some(b"\0user\0password\0junk".to_vec())),
+        ("authzid", Some(b"authz\0user\0password".to_vec())),
+        ("nul-inside-password", Some(b"\0user\0pass\0word".to_vec())),
+        ("trailing-nul", Some(b"\0user\0password\0".to_vec())),
+    ]
+}
+const PLAIN_ABSENT: usize = 7;
+
+const SC_INIT: [&str; 7] = ["cf-right-user", "cf-wrong-user", "cf-no-gs2-header", "cf-no-nonce", "plain-correct", "empty", "absent"];
+const SC_RESP: [&str; 16] = [
+    "final-correct",
+    "final-wrong-password",
+    "final-password-prefix",
+    "final-password-plus-one-byte",
+    "final-password-one-byte-different",
+    "final-proof-bitflip",
+    "final-proof-truncated",
+    "final-no-proof",
+    "final-wrong-nonce",
+    "final-channel-binding-changed",
+    "final-other-salt",
+    "final-other-iterations",
+    "final-replayed-other-client-first",
+    "final-extra-attribute",
+    "final-empty",
+    "plain-correct",
+];
+/// responses whose proof is valid for the configured password over the messages as exchanged
+const SC_RESP_CRED_VALID: [&str; 3] = ["final-correct", "final-channel-binding-changed", "final-extra-attribute"];
+
+#[derive(Clone, Copy, Debug, PartialEq, Eq, Hash)]
+pub enum Act {
+    HSasl,
+    HAmqp,
+    /// (mechanism index, payload index)
+    Init(usize, usize),
+    Resp(usize),
+    Mechs,
+    Challenge,
+    OutcomeOk,
+    Open,
+    Garbage,
+    Partial,
+    Eof,
+}
+
+fn alphabet(kind: LKind) -> Vec<Act> {
+    let mut v = vec![Act::HSasl, Act::HAmqp];
+    let (ni, nr) = match kind {
+        LKind::Plain => (plain_payloads().len(), plain_payloads().len()),
+        LKind::Scram(_) => (SC_INIT.len(), SC_RESP.len()),
+    };
+    for m in 0..4 {
+        for p in 0..ni {
+            v.push(Act::Init(m, p));
+        }
+    }
+    for p in 0..nr {
+        if kind == LKind::Plain && p == PLAIN_ABSENT {
+            continue; // the response field is mandatory: no "absent" form of a well-typed response
+        }
+        v.push(Act::Resp(p));
+    }
+    v.extend([Act::Mechs, Act::Challenge, Act::OutcomeOk, Act::Open, Act::Garbage, Act::Partial, Act::Eof]);
+    v
+}
+
+fn act_name(kind: LKind, a: Act) -> String {
+    match a {
+        Act::HSasl => "sasl-header".into(),
+        Act::HAmqp => "amqp-header".into(),
+        Act::Init(m, p) => match kind {
+            LKind::Plain => format!("init({},{})", kind.mechs()[m], plain_payloads()[p].0),
+            LKind::Scram(_) => format!("init({},{})", kind.mechs()[m], SC_INIT[p]),
+        },
+        Act::Resp(p) => match kind {
+            LKind::Plain => format!("response({})", plain_payloads()[p].0),
+            LKind::Scram(_) => format!("response({})", SC_RESP[p]),
+        },
+        Act::Mechs => "mechanisms".into(),
+        Act::Challenge => "challenge".into(),
+        Act::OutcomeOk => "outcome(ok)".into(),
+        Act::Open => "amqp-open".into(),
+        Act::Garbage => "garbage".into(),
+        Act::Partial => "partial(3 zero bytes)".into(),
+        Act::Eof => "eof".into(),
+    }
+}
+
+#[derive(Clone, Copy, Debug, PartialEq, Eq)]
+enum Expect {
+    MustSucceed,
+    MustFail,
+    Either,
+}
+
+/// The reference verdict, from the action sequence alone (see the module comment for the readings).
+fn expect(kind: LKind, seq: &[Act]) -> Expect {
+    let tail_ok = |rest: &[Act]| rest.len() <= 2 && rest.iter().zip([Act::HAmqp, Act::Open]).all(|(a, b)| *a == b);
+    match kind {
+        LKind::Plain => {
+            let pp = plain_payloads();
+            let valid = |p: usize| pp[p].0 == "correct" || pp[p].0 == "authzid";
+            match seq {
+                [Act::HSasl, Act::Init(m, p), rest @ ..] if valid(*p) => {
+                    if *m == 0 && pp[*p].0 == "correct" && tail_ok(rest) {
+                        Expect::MustSucceed
+                    } else {
+                        Expect::Either
+                    }
+                }
+                _ => Expect::MustFail,
+            }
+        }
+        LKind::Scram(_) => {
+            if seq.first() != Some(&Act::HSasl) {
+                return Expect::MustFail;
+            }
+            let Some(j) = seq.iter().position(|a| matches!(a, Act::Resp(_))) else {
+                return Expect::MustFail;
+            };
+            let inits_ok = j >= 2 && seq[1..j].iter().all(|a| matches!(a, Act::Init(_, 0)));
+            let Act::Resp(r) = seq[j] else { unreachable!() };
+            if !inits_ok || !SC_RESP_CRED_VALID.contains(&SC_RESP[r]) {
+                return Expect::MustFail;
+            }
+            if j == 2 && seq[1] == Act::Init(0, 0) && r == 0 && tail_ok(&seq[3..]) {
+                Expect::MustSucceed
+            } else {
+                Expect::Either
+            }
+        }
+    }
+}
+
+fn scram_init_payload(idx: usize) -> (Option<Vec<u8>>, Option<String>) {
+    match SC_INIT[idx] {
+        "cf-right-user" => (Some(format!("n,,n={USER},r={CNONCE}").into_bytes()), Some(format!("n={USER},r={CNONCE}"))),
+        "cf-wrong-user" => (Some(format!("n,,n=usex,r={CNONCE}").into_bytes()), Some(format!("n=usex,r={CNONCE}"))),
+        "cf-no-gs2-header" => (Some(format!("n={USER},r={CNONCE}").into_bytes()), Some(format!("n={USER},r={CNONCE}"))),
+        "cf-no-nonce" => (Some(format!("n,,n={USER}").into_bytes()), Some(format!("n={USER}"))),
+        "plain-correct" => (Some(b"\0user\0password".to_vec()), None),
+        "empty" => (Some(vec![]), None),
+        _ => (None, None),
+    }
+}
+
+/// client-final-message of the scripted SCRAM client for the response class `idx`
+fn scram_final(v: Ver, idx: usize, cfb: &str, server_first: Option<&str>) -> Vec<u8> {
+    let name = SC_RESP[idx];
+    match name {
+        "final-empty" => return vec![],
+        "plain-correct" => return b"\0user\0password".to_vec(),
+        _ => {}
+    }
+    let synthetic = format!("r={CNONCE}c19srv,s={},i=4096", b64e(b"0123456789abcdef"));
+    let (sf_text, sf) = match server_first.and_then(|s| parse_server_first(s).map(|p| (s.to_string(), p))) {
+        Some(x) => x,
+        None => (synthetic.clone(), parse_server_first(&synthetic).unwrap()),
+    };
+    let mut pw = PASSWORD.to_string();
+    let mut salt = sf.salt.clone();
+    let mut iters = sf.iters;
+    let mut gs2 = "n,,";
+    let mut cfb_auth = cfb.to_string();
+    let mut ext = "";
+    match name {
+        "final-wrong-password" => pw = "hunter22".into(),
+        "final-password-prefix" => pw = "passwor".into(),
+        "final-password-plus-one-byte" => pw = "passwordX".into(),
+        "final-password-one-byte-different" => pw = "passwore".into(),
+        "final-other-salt" => {
+            if salt.is_empty() {
+                salt.push(1)
+            } else {
+                salt[0] ^= 1
+            }
+        }
+        "final-other-iterations" => iters += 1,
+        "final-replayed-other-client-first" => cfb_auth = format!("n={USER},r=AnotherClientNonce"),
+        "final-channel-binding-changed" => gs2 = "y,,",
+        "final-extra-attribute" => ext = ",x=ext",
+        _ => {}
+    }
+    let without = format!("c={},r={}{}", b64e(gs2.as_bytes()), sf.nonce, ext);
+    let auth = auth_message(&cfb_auth, &sf_text, &without);
+    let salted = v.hi(pw.as_bytes(), &salt, iters.min(20_000));
+    let mut proof = client_proof(v, &salted, &auth);
+    match name {
+        "final-proof-bitflip" => proof[0] ^= 1,
+        "final-proof-truncated" => proof.truncate(8),
+        _ => {}
+    }
+    let sent = if name == "final-wrong-nonce" { format!("c=biws,r={}X", sf.nonce) } else { without };
+    if name == "final-no-proof" {
+        return sent.into_bytes();
+    }
+    format!("{sent},p={}", b64e(&proof)).into_bytes()
+}
+
+fn peer_open() -> Open {
+    Open {
+        container_id: "c19-scripted".into(),
+        hostname: None,
+        max_frame_size: 4096.into(),
+        channel_max: 10.into(),
+        idle_time_out: None,
+        outgoing_locales: None,
+        incoming_locales: None,
+        offered_capabilities: None,
+        desired_capabilities: None,
+        properties: None,
+    }
+}
+
+#[derive(Debug, Clone, Default)]
+pub struct LObs {
+    /// accept() still pending after action i
+    pub alive: Vec<bool>,
+    pub result: String,
+    pub accept_ok: bool,
+    pub open_on_wire: bool,
+    /// sasl-outcome codes written by the listener (independent wire reader)
+    pub outcomes: Vec<u8>,
+    pub mechanisms: Vec<String>,
+    pub challenges: usize,
+    /// index of the client action after which the first OK outcome appeared
+    pub ok_after: Option<usize>,
+    pub wire: Vec<String>,
+    pub trace: Vec<String>,
+    pub cross: Option<String>,
+}
+
+fn lib_items(pipe: &Pipe) -> Vec<Item> {
+    let bytes: Vec<u8> = pipe.log().into_iter().filter(|e| e.dir == 0).flat_map(|e| e.bytes).collect();
+    read_stream(&bytes)
+}
+
+fn outcome_codes(items: &[Item]) -> Vec<u8> {
+    items
+        .iter()
+        .filter_map(|i| match i {
+            Item::Sasl { code: 0x44, fields } => Some(match fields.first() {
+                Some(Field::UByte(c)) => *c,
+                _ => 255,
+            }),
+            _ => None,
+        })
+        .collect()
+}
+
+fn last_challenge(items: &[Item]) -> Option<String> {
+    items.iter().rev().find_map(|i| match i {
+        Item::Sasl { code: 0x42, fields } => match fields.first() {
+            Some(Field::Binary(b)) => String::from_utf8(b.clone()).ok(),
+            _ => None,
+        },
+        _ => None,
+    })
+}
+
+async fn listener_scenario<S: SaslAcceptor + 'static>(acceptor: ConnectionAcceptor<(), S>, kind: LKind, seq: Vec<Act>, burst: bool) -> LObs {
+    let mut obs = LObs::default();
+    let (pipe, a, _b) = Pipe::new();
+    let mut peer = Peer::new(pipe.clone(), 1, Auto::none());
+    let fut = acceptor.accept(a);
+    tokio::pin!(fut);
+    let mut result = None;
+    macro_rules! rounds {
+        ($n:expr) => {
+            for _ in 0..$n {
+                if result.is_none() {
+                    tokio::select! {
+                        biased;
+                        r = &mut fut => { result = Some(r); }
+                        _ = tokio::time::sleep(Duration::from_millis(1)) => {}
+                    }
+                } else {
+                    tokio::time::sleep(Duration::from_millis(1)).await;
+                }
+                peer.pump();
+            }
+        };
+    }
+    rounds!(2);
+    let pp = plain_payloads();
+    let mut cfb = format!("n={USER},r={CNONCE}");
+    let mut eof = false;
+    for (i, act) in seq.iter().enumerate() {
+        if eof {
+            // nothing can be sent after the client closed its write half
+            obs.alive.push(result.is_none());
+            continue;
+        }
+        match *act {
+            Act::HSasl => peer.send_proto_header(SASL_HEADER),
+            Act::HAmqp => peer.send_proto_header(AMQP_HEADER),
+            Act::Init(m, p) => {
+                let payload = match kind {
+                    LKind::Plain => pp[p].1.clone(),
+                    LKind::Scram(_) => {
+                        let (pl, c) = scram_init_payload(p);
+                        if let Some(c) = c {
+                            cfb = c;
+                        }
+                        pl
+                    }
+                };
+                peer.send_sasl(Sasl::Init(SaslInit {
+                    mechanism: Symbol::from(kind.mechs()[m]),
+                    initial_response: payload.map(Binary::from),
+                    hostname: None,
+                }));
+            }
+            Act::Resp(p) => {
+                let payload = match kind {
+                    LKind::Plain => pp[p].1.clone().unwrap_or_default(),
+                    LKind::Scram(v) => scram_final(v, p, &cfb, last_challenge(&lib_items(&pipe)).as_deref()),
+                };
+                peer.send_sasl(Sasl::Response(SaslResponse { response: Binary::from(payload) }));
+            }
+            Act::Mechs => peer.send_sasl(Sasl::Mechanisms(SaslMechanisms {
+                sasl_server_mechanisms: Array::from(vec![Symbol::from(kind.mechs()[0])]),
+            })),
+            Act::Challenge => peer.send_sasl(Sasl::Challenge(SaslChallenge { challenge: Binary::from(b"r=x,s=QUJD,i=1".to_vec()) })),
+            Act::OutcomeOk => peer.send_sasl(Sasl::Outcome(SaslOutcome { code: SaslCode::Ok, additional_data: None })),
+            Act::Open => peer.send(0, Performative::Open(peer_open())),
+            Act::Garbage => peer.send_raw(&[0xde, 0xad, 0xbe, 0xef, 0, 1, 2, 3, 4, 5, 6, 7]),
+            Act::Partial => peer.send_raw(&[0, 0, 0]),
+            Act::Eof => {
+                peer.close_write();
+                eof = true;
+            }
+        }
+        if !burst {
+            rounds!(3);
+        }
+        let so_far = if burst { vec![] } else { lib_items(&pipe) };
+        // "alive" = the SASL/opening phase is still going on: accept() pending and the listener has not yet
+        // written its AMQP open (what follows an open is connection lifecycle, property C12)
+        obs.alive.push(result.is_none() && !so_far.iter().any(|i| matches!(i, Item::Amqp { code: Some(0x10), .. })));
+        if !burst && obs.ok_after.is_none() && outcome_codes(&so_far).contains(&0) {
+            obs.ok_after = Some(i);
+        }
+    }
+    // epilogue: whatever is missing of "AMQP header, open", as long as accept() is still pending
+    if result.is_none() && !eof {
+        let n = seq.len();
+        let after_header = n >= 1 && seq[n - 1] == Act::HAmqp;
+        let after_open = n >= 2 && seq[n - 2] == Act::HAmqp && seq[n - 1] == Act::Open;
+        if !after_open {
+            if !after_header {
+                peer.send_proto_header(AMQP_HEADER);
+                if !burst {
+                    rounds!(3);
+                }
+            }
+            if result.is_none() {
+                peer.send(0, Performative::Open(peer_open()));
+            }
+        }
+    }
+    rounds!(if burst { 8 } else { 4 });
+    let items = lib_items(&pipe);
+    obs.outcomes = outcome_codes(&items);
+    if burst {
+        // pipelined: the k-th answer (challenge or outcome) belongs to the k-th init/response sent
+        let answers: Vec<&Item> = items.iter().filter(|i| matches!(i, Item::Sasl { code: 0x42 | 0x44, .. })).collect();
+        if let Some(k) = answers.iter().position(|i| matches!(i, Item::Sasl { code: 0x44, fields } if fields.first() == Some(&Field::UByte(0)))) {
+            obs.ok_after = seq.iter().enumerate().filter(|(_, a)| matches!(a, Act::Init(..) | Act::Resp(_))).map(|(i, _)| i).nth(k);
+        }
+    }
+    obs.challenges = items.iter().filter(|i| matches!(i, Item::Sasl { code: 0x42, .. })).count();
+    obs.mechanisms = items
+        .iter()
+        .find_map(|i| match i {
+            Item::Sasl { code: 0x40, fields } => Some(match fields.first() {
+                Some(Field::Symbols(v)) => v.clone(),
+                Some(Field::Symbol(s)) => vec![s.clone()],
+                _ => vec![],
+            }),
+            _ => None,
+        })
+        .unwrap_or_default();
+    obs.open_on_wire = items.iter().any(|i| matches!(i, Item::Amqp { code: Some(0x10), .. }));
+    obs.wire = items.iter().map(|i| i.short()).collect();
+    // cross-check the independent reader against the harness peer's decoder
+    let peer_codes: Vec<u8> = peer
+        .trace
+        .iter()
+        .filter(|w| w.dir == Dirn::FromLib)
+        .filter_map(|w| match &w.body {
+            Body::Sasl(Sasl::Outcome(o)) => Some(o.code.clone() as u8),
+            _ => None,
+        })
+        .collect();
+    if peer_codes != obs.outcomes {
+        obs.cross = Some(format!("independent reader sees outcome codes {:?}, the peer's decoder {:?}", obs.outcomes, peer_codes));
+    }
+    let peer_open_seen = peer.trace.iter().any(|w| w.dir == Dirn::FromLib && matches!(&w.body, Body::Perf(Performative::Open(_))));
+    if peer_open_seen != obs.open_on_wire {
+        obs.cross = Some(format!("independent reader open={}, the peer's decoder open={}", obs.open_on_wire, peer_open_seen));
+    }
+    obs.accept_ok = matches!(result, Some(Ok(_)));
+    obs.result = match &result {
+        None => "pending".into(),
+        Some(Ok(_)) => "ok".into(),
+        Some(Err(e)) => format!("err {e:?}"),
+    };
+    obs.trace = trace_to_strings(&peer.trace);
+    obs.trace.push(format!("accept() = {}", obs.result));
+    drop(result);
+    obs
+}
+
+fn scram_credential(v: Ver) -> Arc<SingleScramCredential> {
+    static CREDS: [OnceLock<Arc<SingleScramCredential>>; 3] = [OnceLock::new(), OnceLock::new(), OnceLock::new()];
+    let (i, sv) = match v {
+        Ver::S1 => (0, ScramVersion::Sha1),
+        Ver::S256 => (1, ScramVersion::Sha256),
+        Ver::S512 => (2, ScramVersion::Sha512),
+    };
+    CREDS[i]
+        .get_or_init(|| Arc::new(SingleScramCredential::new(USER, PASSWORD, sv).expect("scram credential")))
+        .clone()
+}
+
+struct CaseRun<O> {
+    obs: Option<O>,
+    panics: Vec<String>,
+    spun: bool,
+    watchdog: bool,
+}
+
+fn run_listener_case(kind: LKind, seq: &[Act], burst: bool) -> CaseRun<LObs> {
+    if let LKind::Scram(v) = kind {
+        scram_credential(v); // built outside the execution thread, once
+    }
+    let seq = seq.to_vec();
+    let scen: Scenario<LObs> = Arc::new(move || {
+        let seq = seq.clone();
+        Box::pin(async move {
+            match kind {
+                LKind::Plain => {
+                    let acc = ConnectionAcceptor::builder()
+                        .container_id("c19-listener")
+                        .sasl_acceptor(SaslPlainMechanism::new(USER, PASSWORD))
+                        .build();
+                    listener_scenario(acc, kind, seq, burst).await
+                }
+                LKind::Scram(v) => {
+                    let acc = ConnectionAcceptor::builder()
+                        .container_id("c19-listener")
+                        .sasl_acceptor(ScramAuthenticator::new(scram_credential(v)))
+                        .build();
+                    listener_scenario(acc, kind, seq, burst).await
+                }
+            }
+        })
+    });
+    let ex = run_exec(vec![], &RunCfg::none(), &scen);
+    CaseRun { obs: ex.out, panics: ex.panics, spun: ex.spun, watchdog: ex.watchdog }
+}
+
+#[derive(Default)]
+struct Acc {
+    executions: u64,
+    violations: Vec<(String, String, J)>,
+    /// all violating executions per signature (only the first few of each are kept in `violations`)
+    violating: BTreeMap<String, u64>,
+    machinery: Vec<String>,
+    classes: HashSet<u64>,
+    counters: BTreeMap<String, u64>,
+    samples: Vec<J>,
+    truncated: bool,
+}
+
+impl Acc {
+    fn count(&mut self, k: &str, n: u64) {
+        *self.counters.entry(k.to_string()).or_insert(0) += n;
+    }
+    fn violation(&mut self, sig: String, detail: String, replay: J) {
+        let n = self.violating.entry(sig.clone()).or_insert(0);
+        *n += 1;
+        if *n <= 5 {
+            self.violations.push((sig, detail, replay));
+        }
+    }
+    fn machinery(&mut self, s: String) {
+        if self.machinery.len() < 8 {
+            self.machinery.push(s);
+        }
+    }
+}
+
+fn listener_replay(kind: LKind, seq: &[Act], burst: bool) -> J {
+    json!({"part": "listener", "listener": kind.name(), "pipelined": burst, "actions": seq.iter().map(|a| act_name(kind, *a)).collect::<Vec<_>>()})
+}
+
+/// what made the listener say OK: the last init/response sent before the first OK outcome
+fn ok_trigger(kind: LKind, seq: &[Act], obs: &LObs) -> String {
+    let Some(k) = obs.ok_after else {
+        return "without an OK outcome".into();
+    };
+    match seq[..=k].iter().rev().find(|a| matches!(a, Act::Init(..) | Act::Resp(_))) {
+        // the mechanism name is not part of the class (it is not judged); the two payloads with bytes after a
+        // third NUL are one class
+        Some(Act::Init(_, p)) => {
+            let pl = match kind {
+                LKind::Plain => plain_class(*p),
+                LKind::Scram(_) => SC_INIT[*p],
+            };
+            format!("OK after init({pl})")
+        }
+        Some(Act::Resp(p)) => {
+            let pl = match kind {
+                LKind::Plain => plain_class(*p),
+                LKind::Scram(_) => SC_RESP[*p],
+            };
+            format!("OK after response({pl})")
+        }
+        _ => "OK without init or response".into(),
+    }
+}
+
+fn plain_class(p: usize) -> &'static str {
+    match plain_payloads()[p].0 {
+        "extra-nul-field" | "trailing-nul" => "extra-nul-separated-field",
+        other => other,
+    }
+}
+
+fn judge_listener(kind: LKind, seq: &[Act], burst: bool, run: &CaseRun<LObs>, acc: &mut Acc) {
+    acc.executions += 1;
+    let names: Vec<String> = seq.iter().map(|a| act_name(kind, *a)).collect();
+    let Some(obs) = &run.obs else {
+        acc.machinery(format!("listener scenario {} {:?} did not finish: panics {:?} watchdog {}", kind.name(), names, run.panics, run.watchdog));
+        return;
+    };
+    if run.spun || !run.panics.is_empty() {
+        // not this property's business (C14/C15): handed to the owner as a machinery note
+        acc.machinery(format!("listener {} {:?}: spun={} panics={:?} trace={:?}", kind.name(), names, run.spun, run.panics, obs.trace));
+    }
+    if let Some(c) = &obs.cross {
+        acc.machinery(format!("listener {} {:?}: {c}", kind.name(), names));
+    }
+    let exp = match (expect(kind, seq), burst, kind) {
+        // pipelined (everything written before the listener runs): a SCRAM response computed before the
+        // challenge was seen cannot carry a valid proof (the server nonce is random) -> nothing authenticates;
+        // a pipelined valid PLAIN exchange may succeed but is not required to here (pipelining is C12's business)
+        (_, true, LKind::Scram(_)) => Expect::MustFail,
+        (Expect::MustSucceed, true, LKind::Plain) => Expect::Either,
+        (e, _, _) => e,
+    };
+    let opened = obs.accept_ok || obs.open_on_wire;
+    let mode = if burst { "pipelined in one burst" } else { "one action per quiescent point" };
+    match exp {
+        Expect::MustFail if opened => {
+            let payload_hex = seq
+                .iter()
+                .filter_map(|a| match (kind, a) {
+                    (LKind::Plain, Act::Init(_, p)) | (LKind::Plain, Act::Resp(p)) => {
+                        plain_payloads()[*p].1.as_ref().map(|b| format!("{:?}", String::from_utf8_lossy(b)))
+                    }
+                    _ => None,
+                })
+                .collect::<Vec<_>>();
+            acc.violation(
+                format!("unauthenticated-open [{}] {}", if kind == LKind::Plain { "PLAIN" } else { "SCRAM" }, ok_trigger(kind, seq, obs)),
+                format!(
+                    "listener {} opened a connection (accept()={}, listener's open on the wire={}) for client actions {:?} ({mode}; payload bytes {:?}) which do not present the configured credentials {:?}/{:?} in a well-formed exchange; listener wrote {:?}",
+                    kind.name(), obs.result, obs.open_on_wire, names, payload_hex, USER, PASSWORD, obs.wire
+                ),
+                listener_replay(kind, seq, burst),
+            );
+        }
+        Expect::MustSucceed if !(obs.accept_ok && obs.open_on_wire) => {
+            acc.violation(
+                format!("valid-exchange-rejected [{}]", if kind == LKind::Plain { "PLAIN" } else { "SCRAM" }),
+                format!(
+                    "listener {}: the canonical exchange with the configured credentials {:?} ({mode}) did not open the connection: accept()={}, listener's open on the wire={}, listener wrote {:?}",
+                    kind.name(), names, obs.result, obs.open_on_wire, obs.wire
+                ),
+                listener_replay(kind, seq, burst),
+            );
+        }
+        _ => {}
+    }
+    // evidence
+    let answered = !obs.outcomes.is_empty() || obs.challenges > 0;
+    if answered {
+        acc.classes.insert(h64(&("L", kind, burst, &obs.wire, obs.result.split(['(', ' ', '{']).take(2).collect::<Vec<_>>())));
+        acc.count("listener_runs_where_sasl_layer_answered", 1);
+    }
+    if obs.mechanisms.iter().any(|m| m == kind.name()) {
+        acc.count("listener_runs_mechanisms_frame_received", 1);
+    }
+    for c in &obs.outcomes {
+        acc.count(&format!("listener_outcome_code_{c}"), 1);
+    }
+    if obs.challenges > 0 {
+        acc.count("listener_runs_with_challenge", 1);
+    }
+    match exp {
+        Expect::MustSucceed => acc.count("listener_must_succeed_cases", 1),
+        Expect::MustFail => acc.count("listener_must_fail_cases", 1),
+        Expect::Either => {
+            acc.count("listener_either_cases", 1);
+            if opened {
+                acc.count("listener_either_cases_opened", 1);
+                if matches!(seq.get(1), Some(Act::Init(m, _)) if *m != 0) {
+                    acc.count("listener_opened_with_unoffered_mechanism_name_and_valid_credentials", 1);
+                }
+            }
+        }
+    }
+    if opened {
+        acc.count("listener_runs_connection_opened", 1);
+    }
+    if burst {
+        acc.count("listener_runs_pipelined", 1);
+        if opened && expect(kind, seq) == Expect::MustSucceed {
+            acc.count("listener_pipelined_canonical_plain_exchange_opened", 1);
+        }
+    }
+    let want = match acc.samples.len() {
+        0 => exp == Expect::MustSucceed && kind == LKind::Plain,
+        1 => exp == Expect::MustSucceed && kind != LKind::Plain,
+        2 => exp == Expect::MustFail && obs.outcomes.contains(&1) && seq.len() >= 3,
+        _ => false,
+    };
+    if want {
+        acc.samples.push(json!({"listener": kind.name(), "client_actions": names, "mode": mode, "expected": format!("{:?}", exp), "accept": obs.result, "listener_wrote": obs.wire}));
+    }
+}
+
+/// every sequence of 1..=depth actions; `prune`: extend a sequence only while accept() is pending
+fn enumerate_listener(kind: LKind, depth: usize, prune: bool, threads: usize, deadline: Instant, acc: &mut Acc) -> (usize, Vec<u64>) {
+    let alpha = alphabet(kind);
+    let mut frontier: Vec<Vec<Act>> = vec![vec![]];
+    let mut per_level = vec![];
+    let mut done = 0;
+    for _level in 1..=depth {
+        let cands: Vec<Vec<Act>> = frontier
+            .iter()
+            .flat_map(|p| {
+                alpha.iter().map(move |a| {
+                    let mut q = p.clone();
+                    q.push(*a);
+                    q
+                })
+            })
+            .collect();
+        if cands.is_empty() {
+            // nothing alive any more: all longer sequences are covered by their dead prefixes
+            done = depth;
+            break;
+        }
+        let cut = std::sync::atomic::AtomicBool::new(false);
+        let runs = par_map(&cands, threads, |_, seq| {
+            if Instant::now() > deadline {
+                cut.store(true, std::sync::atomic::Ordering::Relaxed);
+                return None;
+            }
+            Some((run_listener_case(kind, seq, false), if seq.len() >= 2 { Some(run_listener_case(kind, seq, true)) } else { None }))
+        });
+        let mut next = vec![];
+        for (seq, run) in cands.iter().zip(runs.iter()) {
+            let Some((run, brun)) = run else { continue };
+            judge_listener(kind, seq, false, run, acc);
+            if let Some(brun) = brun {
+                judge_listener(kind, seq, true, brun, acc);
+            }
+            let alive = run.obs.as_ref().map(|o| o.alive.last().copied().unwrap_or(false)).unwrap_or(false);
+            if alive || !prune {
+                next.push(seq.clone());
+            }
+            if !alive {
+                acc.count(if prune { "listener_sequences_ending_dead" } else { "unpruned_sequences_ending_dead" }, 1);
+            }
+        }
+        per_level.push(cands.len() as u64);
+        if cut.load(std::sync::atomic::Ordering::Relaxed) {
+            acc.truncated = true;
+            break;
+        }
+        done += 1;
+        frontier = next;
+    }
+    (done, per_level)
+}
+
+// ================================================================================================
+// Part 2: the SCRAM client under attack
+
+const C_USER: &str = "user";
+const C_PASSWORD: &str = "pencil";
+const SALT1: &[u8] = b"c19-salt-0123456";
+const SALT2: &[u8] = b"c19-salt-6543210";
+const ITERS: u32 = 4096;
+
+#[derive(Clone, Copy, Debug, PartialEq, Eq, Hash)]
+pub enum Early {
+    None,
+    OkBeforeMechanisms,
+    OkBeforeChallengeNoData,
+    OkBeforeChallengeJunkSignature,
+}
+#[derive(Clone, Copy, Debug, PartialEq, Eq, Hash)]
+pub enum NonceT {
+    Honest,
+    ServerOnly,
+    ClientFirstCharChanged,
+    ClientTruncated,
+}
+/// what the server signature is computed from
+#[derive(Clone, Copy, Debug, PartialEq, Eq, Hash)]
+pub enum Basis {
+    Honest,
+    OtherSalt,
+    OtherIterations,
+    OtherPassword,
+    OtherAuthMessage,
+    ClientKeyInsteadOfServerKey,
+}
+/// form of the additional-data of the outcome
+#[derive(Clone, Copy, Debug, PartialEq, Eq, Hash)]
+pub enum Form {
+    Valid,
+    BitFlip,
+    Truncated,
+    EmptySignature,
+    Missing,
+    EmptyData,
+    NonUtf8,
+    NoVPrefix,
+    NotBase64,
+    ErrorAttribute,
+}
+#[derive(Clone, Copy, Debug, PartialEq, Eq, Hash)]
+pub enum Extra {
+    None,
+    RepeatChallenge,
+    EmptyChallenge,
+}
+
+const EARLY: [Early; 4] = [Early::None, Early::OkBeforeMechanisms, Early::OkBeforeChallengeNoData, Early::OkBeforeChallengeJunkSignature];
+const NONCES: [NonceT; 4] = [NonceT::Honest, NonceT::ServerOnly, NonceT::ClientFirstCharChanged, NonceT::ClientTruncated];
+const BASES: [Basis; 6] = [Basis::Honest, Basis::OtherSalt, Basis::OtherIterations, Basis::OtherPassword, Basis::OtherAuthMessage, Basis::ClientKeyInsteadOfServerKey];
+const FORMS: [Form; 10] = [Form::Valid, Form::BitFlip, Form::Truncated, Form::EmptySignature, Form::Missing, Form::EmptyData, Form::NonUtf8, Form::NoVPrefix, Form::NotBase64, Form::ErrorAttribute];
+const EXTRAS: [Extra; 3] = [Extra::None, Extra::RepeatChallenge, Extra::EmptyChallenge];
+const CODE_NAMES: [&str; 5] = ["ok", "auth", "sys", "sys-perm", "sys-temp"];
+
+#[derive(Clone, Copy, Debug, PartialEq, Eq, Hash)]
+pub struct Script {
+    pub early: Early,
+    pub nonce: NonceT,
+    pub basis: Basis,
+    pub form: Form,
+    pub code: u8,
+    pub extra: Extra,
+}
+
+impl Script {
+    fn honest() -> Self {
+        Script { early: Early::None, nonce: NonceT::Honest, basis: Basis::Honest, form: Form::Valid, code: 0, extra: Extra::None }
+    }
+    fn tampered(&self) -> bool {
+        *self != Script::honest()
+    }
+    fn label(&self) -> String {
+        let mut v = vec![];
+        if self.early != Early::None {
+            v.push(format!("early={:?}", self.early));
+        }
+        if self.nonce != NonceT::Honest {
+            v.push(format!("nonce={:?}", self.nonce));
+        }
+        if self.basis != Basis::Honest {
+            v.push(format!("signature-basis={:?}", self.basis));
+        }
+        if self.form != Form::Valid {
+            v.push(format!("additional-data={:?}", self.form));
+        }
+        if self.code != 0 {
+            v.push(format!("code={}", CODE_NAMES[self.code as usize]));
+        }
+        if self.extra != Extra::None {
+            v.push(format!("extra={:?}", self.extra));
+        }
+        if v.is_empty() {
+            "honest".into()
+        } else {
+            v.join(" ")
+        }
+    }
+    fn to_json(&self) -> J {
+        json!({"early": format!("{:?}", self.early), "nonce": format!("{:?}", self.nonce), "basis": format!("{:?}", self.basis), "form": format!("{:?}", self.form), "code": self.code, "extra": format!("{:?}", self.extra)})
+    }
+    fn from_json(j: &J) -> Option<Script> {
+        let s = |k: &str| j[k].as_str().unwrap_or("").to_string();
+        Some(Script {
+            early: *EARLY.iter().find(|x| format!("{:?}", x) == s("early"))?,
+            nonce: *NONCES.iter().find(|x| format!("{:?}", x) == s("nonce"))?,
+            basis: *BASES.iter().find(|x| format!("{:?}", x) == s("basis"))?,
+            form: *FORMS.iter().find(|x| format!("{:?}", x) == s("form"))?,
+            code: j["code"].as_u64()? as u8,
+            extra: *EXTRAS.iter().find(|x| format!("{:?}", x) == s("extra"))?,
+        })
+    }
+}
+
+fn sasl_code(c: u8) -> SaslCode {
+    match c {
+        0 => SaslCode::Ok,
+        1 => SaslCode::Auth,
+        2 => SaslCode::Sys,
+        3 => SaslCode::SysPerm,
+        _ => SaslCode::SysTemp,
+    }
+}
+
+#[derive(Debug, Clone, Default)]
+pub struct CObs {
+    pub result: String,
+    pub ok: bool,
+    /// the client wrote its AMQP header after the SASL layer
+    pub proceeded: bool,
+    pub init_seen: bool,
+    pub responses: usize,
+    /// the client's proof verified by the independent SCRAM
+    pub proof_ok: Option<bool>,
+    pub outcome_sent: bool,
+    pub notes: Vec<String>,
+    pub wire: Vec<String>,
+    pub trace: Vec<String>,
+}
+
+/// the independent server's outcome for the exchange so far
+fn build_outcome(v: Ver, sc: Script, cfb: &str, server_first: &str, final_without_proof: &str) -> SaslOutcome {
+    let (pw, salt, iters) = match sc.basis {
+        Basis::OtherSalt => (C_PASSWORD, SALT2, ITERS),
+        Basis::OtherIterations => (C_PASSWORD, SALT1, ITERS + 1),
+        Basis::OtherPassword => ("pencil2", SALT1, ITERS),
+        _ => (C_PASSWORD, SALT1, ITERS),
+    };
+    let salted = v.hi(pw.as_bytes(), salt, iters);
+    let auth = if sc.basis == Basis::OtherAuthMessage {
+        auth_message(cfb, &server_first.replacen("r=", "r=Z", 1), final_without_proof)
+    } else {
+        auth_message(cfb, server_first, final_without_proof)
+    };
+    let mut sig = if sc.basis == Basis::ClientKeyInsteadOfServerKey {
+        let (ck, _) = refscram::keys(v, &salted);
+        v.hmac(&ck, &auth)
+    } else {
+        server_signature(v, &salted, &auth)
+    };
+    let data: Option<Vec<u8>> = match sc.form {
+        Form::Valid => Some(format!("v={}", b64e(&sig)).into_bytes()),
+        Form::BitFlip => {
+            sig[0] ^= 1;
+            Some(format!("v={}", b64e(&sig)).into_bytes())
+        }
+        Form::Truncated => Some(format!("v={}", b64e(&sig[..8])).into_bytes()),
+        Form::EmptySignature => Some(b"v=".to_vec()),
+        Form::Missing => None,
+        Form::EmptyData => Some(vec![]),
+        Form::NonUtf8 => Some(vec![0xff, 0xfe, b'v', b'=']),
+        Form::NoVPrefix => Some(b64e(&sig).into_bytes()),
+        Form::NotBase64 => Some(b"v=!!!not-base64!!!".to_vec()),
+        Form::ErrorAttribute => Some(b"e=invalid-proof".to_vec()),
+    };
+    SaslOutcome { code: sasl_code(sc.code), additional_data: data.map(Binary::from) }
+}
+
+async fn client_scenario(v: Ver, sc: Script) -> CObs {
+    let mut obs = CObs::default();
+    let (pipe, a, _b) = Pipe::new();
+    let mut peer = Peer::new(pipe.clone(), 1, Auto::none());
+    let profile = match v {
+        Ver::S1 => SaslProfile::ScramSha1(SaslScramSha1::new(C_USER, C_PASSWORD)),
+        Ver::S256 => SaslProfile::ScramSha256(SaslScramSha256::new(C_USER, C_PASSWORD)),
+        Ver::S512 => SaslProfile::ScramSha512(SaslScramSha512::new(C_USER, C_PASSWORD)),
+    };
+    let fut = Connection::builder().container_id("c19-client").sasl_profile(profile).open_with_stream(a);
+    tokio::pin!(fut);
+    let mut result = None;
+    let mut processed = 0usize;
+    let mut cfb = String::new();
+    let mut server_first = String::new();
+    let mut final_without = String::new();
+    let mut extra_sent = false;
+    let mut outcome_pending = false;
+    let mut quiet = 0;
+    for _round in 0..60 {
+        if result.is_none() {
+            tokio::select! {
+                biased;
+                r = &mut fut => { result = Some(r); }
+                _ = tokio::time::sleep(Duration::from_millis(1)) => {}
+            }
+        } else {
+            tokio::time::sleep(Duration::from_millis(1)).await;
+        }
+        peer.pump();
+        let items = lib_items(&pipe);
+        let mut acted = false;
+        while processed < items.len() {
+            let it = items[processed].clone();
+            if matches!(it, Item::Junk(_)) {
+                break;
+            }
+            processed += 1;
+            acted = true;
+            match it {
+                Item::Header(h) if h[4] == 3 => {
+                    peer.send_proto_header(SASL_HEADER);
+                    if sc.early == Early::OkBeforeMechanisms {
+                        peer.send_sasl(Sasl::Outcome(SaslOutcome { code: SaslCode::Ok, additional_data: None }));
+                        obs.outcome_sent = true;
+                    } else {
+                        peer.send_sasl(Sasl::Mechanisms(SaslMechanisms { sasl_server_mechanisms: Array::from(vec![Symbol::from(v.mech())]) }));
+                    }
+                }
+                Item::Header(h) if h[4] == 0 => {
+                    obs.proceeded = true;
+                    peer.send_proto_header(AMQP_HEADER);
+                }
+                Item::Header(_) => {}
+                Item::Sasl { code: 0x41, fields } => {
+                    obs.init_seen = true;
+                    if fields.first() != Some(&Field::Symbol(v.mech().to_string())) {
+                        obs.notes.push(format!("init names mechanism {:?}", fields.first()));
+                    }
+                    let cf = match fields.get(1) {
+                        Some(Field::Binary(b)) => String::from_utf8_lossy(b).into_owned(),
+                        _ => String::new(),
+                    };
+                    cfb = cf.strip_prefix("n,,").unwrap_or(&cf).to_string();
+                    let cnonce = cfb.split(',').find_map(|p| p.strip_prefix("r=")).unwrap_or("").to_string();
+                    if !cfb.starts_with(&format!("n={C_USER},")) || cnonce.is_empty() {
+                        obs.notes.push(format!("unexpected client-first {cf:?}"));
+                    }
+                    match sc.early {
+                        Early::OkBeforeChallengeNoData => {
+                            peer.send_sasl(Sasl::Outcome(SaslOutcome { code: SaslCode::Ok, additional_data: None }));
+                            obs.outcome_sent = true;
+                            continue;
+                        }
+                        Early::OkBeforeChallengeJunkSignature => {
+                            let junk = format!("v={}", b64e(&v.h(b"junk")));
+                            peer.send_sasl(Sasl::Outcome(SaslOutcome { code: SaslCode::Ok, additional_data: Some(Binary::from(junk.into_bytes())) }));
+                            obs.outcome_sent = true;
+                            continue;
+                        }
+                        _ => {}
+                    }
+                    // server nonce: its first character differs from the client nonce's last one so that the
+                    // truncated form really is not an extension of the client's nonce
+                    let sn = if cnonce.ends_with('c') { "d19SrvNonce3rfcNHYJY1ZVvWVs7j" } else { "c19SrvNonce3rfcNHYJY1ZVvWVs7j" };
+                    let nonce = match sc.nonce {
+                        NonceT::Honest => format!("{cnonce}{sn}"),
+                        NonceT::ServerOnly => sn.to_string(),
+                        NonceT::ClientFirstCharChanged => {
+                            let first = if cnonce.starts_with('A') { 'B' } else { 'A' };
+                            format!("{first}{}{sn}", &cnonce[1.min(cnonce.len())..])
+                        }
+                        NonceT::ClientTruncated => format!("{}{sn}", &cnonce[..cnonce.len().saturating_sub(1)]),
+                    };
+                    if sc.nonce != NonceT::Honest && nonce.starts_with(&cnonce) {
+                        obs.notes.push("MACHINERY: the tampered nonce still extends the client's".into());
+                    }
+                    server_first = format!("r={nonce},s={},i={ITERS}", b64e(SALT1));
+                    peer.send_sasl(Sasl::Challenge(SaslChallenge { challenge: Binary::from(server_first.clone().into_bytes()) }));
+                }
+                Item::Sasl { code: 0x43, fields } => {
+                    obs.responses += 1;
+                    let cfin = match fields.first() {
+                        Some(Field::Binary(b)) => String::from_utf8_lossy(b).into_owned(),
+                        _ => String::new(),
+                    };
+                    if obs.responses == 1 {
+                        let salted = v.hi(C_PASSWORD.as_bytes(), SALT1, ITERS);
+                        let (okp, without) = verify_client_final(v, &salted, &cfb, &server_first, &cfin);
+                        obs.proof_ok = Some(okp);
+                        final_without = without;
+                    }
+                    if sc.extra != Extra::None && !extra_sent {
+                        extra_sent = true;
+                        outcome_pending = true;
+                        let ch = if sc.extra == Extra::RepeatChallenge { server_first.clone().into_bytes() } else { vec![] };
+                        peer.send_sasl(Sasl::Challenge(SaslChallenge { challenge: Binary::from(ch) }));
+                    } else {
+                        outcome_pending = false;
+                        peer.send_sasl(Sasl::Outcome(build_outcome(v, sc, &cfb, &server_first, &final_without)));
+                        obs.outcome_sent = true;
+                    }
+                }
+                Item::Amqp { code: Some(0x10), .. } => peer.send(0, Performative::Open(peer_open())),
+                _ => {}
+            }
+        }
+        if acted {
+            quiet = 0;
+        } else {
+            quiet += 1;
+            if outcome_pending && quiet >= 2 {
+                // the client did not answer the extra challenge: deliver the (otherwise valid) outcome anyway
+                outcome_pending = false;
+                peer.send_sasl(Sasl::Outcome(build_outcome(v, sc, &cfb, &server_first, &final_without)));
+                obs.outcome_sent = true;
+                quiet = 0;
+            } else if quiet >= 4 {
+                break;
+            }
+        }
+    }
+    obs.ok = matches!(result, Some(Ok(_)));
+    obs.result = match &result {
+        None => "pending".into(),
+        Some(Ok(_)) => "ok".into(),
+        Some(Err(e)) => format!("err {e:?}"),
+    };
+    obs.wire = lib_items(&pipe).iter().map(|i| i.short()).collect();
+    obs.trace = trace_to_strings(&peer.trace);
+    obs.trace.push(format!("open_with_stream() = {}", obs.result));
+    drop(result);
+    obs
+}
+
+fn run_client_case(v: Ver, sc: Script) -> CaseRun<CObs> {
+    let scen: Scenario<CObs> = Arc::new(move || Box::pin(client_scenario(v, sc)));
+    let ex = run_exec(vec![], &RunCfg::none(), &scen);
+    CaseRun { obs: ex.out, panics: ex.panics, spun: ex.spun, watchdog: ex.watchdog }
+}
+
+fn client_replay(v: Ver, sc: Script) -> J {
+    json!({"part": "scram-client", "mechanism": v.mech(), "script": sc.to_json(), "label": sc.label()})
+}
+
+fn judge_client(v: Ver, sc: Script, run: &CaseRun<CObs>, acc: &mut Acc) {
+    acc.executions += 1;
+    let Some(obs) = &run.obs else {
+        acc.machinery(format!("client scenario {} [{}] did not finish: panics {:?} watchdog {}", v.mech(), sc.label(), run.panics, run.watchdog));
+        return;
+    };
+    if run.spun || !run.panics.is_empty() {
+        acc.machinery(format!("client {} [{}]: spun={} panics={:?} trace={:?}", v.mech(), sc.label(), run.spun, run.panics, obs.trace));
+    }
+    for n in obs.notes.iter().filter(|n| n.starts_with("MACHINERY")) {
+        acc.machinery(format!("client {} [{}]: {n}", v.mech(), sc.label()));
+    }
+    if sc.tampered() {
+        if obs.ok || obs.proceeded {
+            acc.violation(
+                format!("scram-client-accepts-tampered-server [{}]", sc.label()),
+                format!(
+                    "{} client: the scripted server misbehaved ({}), yet open_with_stream()={} and the client {} its AMQP header after SASL; client wrote {:?}; trace {:?}",
+                    v.mech(), sc.label(), obs.result, if obs.proceeded { "sent" } else { "did not send" }, obs.wire, obs.trace
+                ),
+                client_replay(v, sc),
+            );
+        }
+    } else {
+        if !obs.ok {
+            acc.violation(
+                "scram-client-rejects-honest-server".into(),
+                format!("{} client: an honest server (independent SCRAM computation, valid signature) but open_with_stream()={}; notes {:?}; trace {:?}", v.mech(), obs.result, obs.notes, obs.trace),
+                client_replay(v, sc),
+            );
+        }
+        if obs.proof_ok != Some(true) {
+            acc.violation(
+                "scram-client-proof-rejected-by-reference".into(),
+                format!("{} client: the client's proof does not verify under the independent SCRAM computation (proof_ok={:?}); notes {:?}; trace {:?}", v.mech(), obs.proof_ok, obs.notes, obs.trace),
+                client_replay(v, sc),
+            );
+        }
+    }
+    if obs.init_seen {
+        acc.classes.insert(h64(&("C", v, sc, obs.result.split(['(', ' ', '{']).take(2).collect::<Vec<_>>())));
+        acc.count("client_runs_exchange_started", 1);
+    }
+    if obs.responses > 0 {
+        acc.count("client_runs_reaching_the_proof", 1);
+    }
+    if obs.proof_ok == Some(true) {
+        acc.count("client_proofs_verified_by_reference", 1);
+    }
+    if obs.outcome_sent {
+        acc.count("client_runs_outcome_delivered", 1);
+    }
+    if sc.tampered() {
+        acc.count("client_tampered_cases", 1);
+        if !obs.ok && !obs.proceeded {
+            acc.count("client_tampered_cases_refused", 1);
+        }
+    } else {
+        acc.count("client_honest_cases", 1);
+        if obs.ok {
+            acc.count("client_honest_cases_opened", 1);
+        }
+    }
+    if ((!sc.tampered() && v == Ver::S256) || (sc.form == Form::BitFlip && sc == Script { form: Form::BitFlip, ..Script::honest() } && v == Ver::S512)) && acc.samples.len() < 5 {
+        acc.samples.push(json!({"mechanism": v.mech(), "server": sc.label(), "open_with_stream": obs.result, "client_wrote": obs.wire, "client_proof_verified_by_reference": obs.proof_ok}));
+    }
+}
+
+/// honest + every single tamper (+ each non-OK code without additional-data)
+fn single_tampers() -> Vec<Script> {
+    let h = Script::honest();
+    let mut v = vec![h];
+    for e in EARLY.iter().skip(1) {
+        v.push(Script { early: *e, ..h });
+    }
+    for n in NONCES.iter().skip(1) {
+        v.push(Script { nonce: *n, ..h });
+    }
+    for b in BASES.iter().skip(1) {
+        v.push(Script { basis: *b, ..h });
+    }
+    for f in FORMS.iter().skip(1) {
+        v.push(Script { form: *f, ..h });
+    }
+    for c in 1..5u8 {
+        v.push(Script { code: c, ..h });
+        v.push(Script { code: c, form: Form::Missing, ..h });
+    }
+    for x in EXTRAS.iter().skip(1) {
+        v.push(Script { extra: *x, ..h });
+    }
+    v
+}
+
+/// the full product of the tamper dimensions (early outcomes only alone: nothing follows them)
+fn all_scripts() -> Vec<Script> {
+    let h = Script::honest();
+    let mut v = vec![];
+    for n in NONCES {
+        for b in BASES {
+            for f in FORMS {
+                for c in 0..5u8 {
+                    for x in EXTRAS {
+                        v.push(Script { early: Early::None, nonce: n, basis: b, form: f, code: c, extra: x });
+                    }
+                }
+            }
+        }
+    }
+    for e in EARLY.iter().skip(1) {
+        v.push(Script { early: *e, ..h });
+    }
+    v
+}
+
+fn enumerate_client(scripts: &[Script], threads: usize, deadline: Instant, acc: &mut Acc) -> u64 {
+    let cases: Vec<(Ver, Script)> = VERSIONS.iter().flat_map(|v| scripts.iter().map(move |s| (*v, *s))).collect();
+    let cut = std::sync::atomic::AtomicBool::new(false);
+    let runs = par_map(&cases, threads, |_, (v, s)| {
+        if Instant::now() > deadline {
+            cut.store(true, std::sync::atomic::Ordering::Relaxed);
+            return None;
+        }
+        Some(run_client_case(*v, *s))
+    });
+    let mut n = 0;
+    for ((v, s), r) in cases.iter().zip(runs.iter()) {
+        if let Some(r) = r {
+            judge_client(*v, *s, r, acc);
+            n += 1;
+        }
+    }
+    if cut.load(std::sync::atomic::Ordering::Relaxed) {
+        acc.truncated = true;
+    }
+    n
+}
+
+// ================================================================================================
+
+pub fn run(ctx: &Ctx) -> Outcome {
+    let mut out = Outcome::new("exploration");
+    if let Err(e) = refscram::self_test() {
+        out.machinery_errors.push(format!("independent SCRAM self-test failed: {e}"));
+        return out;
+    }
+    if let Some(p) = &ctx.replay {
+        return replay(p, out);
+    }
+    let deadline = Instant::now() + Duration::from_secs_f64(ctx.budget_s * 0.9);
+    let mut acc = Acc::default();
+    // bounds: (pruned tree depth, unpruned validation depth).  Measured: quick ~7 s / 36 k executions; thorough
+    // ~6 min / 1.6 M executions on 16 cores (depth 6 costs 2 M more executions, all of them in states kept
+    // alive by stuffing zero bytes in front of frames, and was dropped)
+    let (depth, unpruned_depth) = if ctx.quick() { (4, 2) } else { (5, 3) };
+    let mut bound_parts = vec![];
+    let mut sequences_covered: u64 = 0;
+    // ---- part 1
+    for kind in LKINDS {
+        let a = alphabet(kind).len() as u64;
+        let (done, levels) = enumerate_listener(kind, depth, true, ctx.threads, deadline, &mut acc);
+        let covered: u64 = (1..=done as u32).map(|k| a.pow(k)).sum();
+        sequences_covered += covered;
+        bound_parts.push(format!(
+            "{} listener: all sequences of <= {} of {} client actions ({} sequences; {} tree nodes executed after pruning at dead listeners, per level {:?}; every node stepwise and, from 2 actions on, also pipelined in one burst)",
+            kind.name(), done, a, covered, levels.iter().sum::<u64>(), levels
+        ));
+        if done < depth {
+            acc.truncated = true;
+        }
+    }
+    let pruned_exec = acc.executions;
+    // ---- part 2
+    let scripts = if ctx.quick() { single_tampers() } else { all_scripts() };
+    let n = enumerate_client(&scripts, ctx.threads, deadline, &mut acc);
+    bound_parts.push(format!(
+        "SCRAM client x {{SHA-1, SHA-256, SHA-512}}: {} server scripts each ({}), {} executed",
+        scripts.len(),
+        if ctx.quick() { "honest + every single tamper + non-OK codes without data" } else { "full product of nonce x signature-basis x additional-data form x outcome code x extra challenge, + early outcomes" },
+        n
+    ));
+    // ---- validation of the pruning: the same enumeration without pruning, to a smaller depth
+    let before_unpruned = acc.executions;
+    for kind in LKINDS {
+        if acc.truncated {
+            break;
+        }
+        let (done, levels) = enumerate_listener(kind, unpruned_depth, false, ctx.threads, deadline, &mut acc);
+        bound_parts.push(format!("{} listener unpruned (validates the pruning): every sequence of <= {} actions executed stepwise and pipelined, per level {:?}", kind.name(), done, levels));
+    }
+    let unpruned_exec = acc.executions - before_unpruned;
+    // ---- non-vacuity
+    if acc.counters.get("listener_must_succeed_cases").copied().unwrap_or(0) == 0 {
+        acc.machinery("no must-succeed listener case was executed".into());
+    }
+    if acc.counters.get("listener_runs_with_challenge").copied().unwrap_or(0) == 0 {
+        acc.machinery("no SCRAM listener run produced a challenge".into());
+    }
+    if acc.counters.get("client_proofs_verified_by_reference").copied().unwrap_or(0) == 0 {
+        acc.machinery("no SCRAM client proof was verified".into());
+    }
+    for (s, d, r) in acc.violations.drain(..) {
+        out.violation(s, d, r);
+    }
+    out.machinery_errors.extend(acc.machinery.drain(..));
+    out.set("evaluations", acc.executions);
+    out.set("distinct_nontrivial", acc.classes.len() as u64);
+    out.set("listener_executions_pruned_tree", pruned_exec);
+    out.set("listener_executions_unpruned", unpruned_exec);
+    out.set("violating_executions_by_class", json!(acc.violating));
+    out.set("listener_sequences_covered", sequences_covered);
+    out.set("client_executions", n);
+    for (k, v) in &acc.counters {
+        out.set(k, *v);
+    }
+    out.set("samples", json!(acc.samples));
+    out.set("exhaustive", !acc.truncated);
+    out.set("bound", bound_parts.join("; "));
+    out.set(
+        "rule",
+        "listener: the tree of all client action sequences over the stated alphabet, each node executed on a fresh real ConnectionAcceptor + vpipe, a node is extended only while accept() is pending (dead prefixes absorb their extensions; validated by the unpruned enumeration); client: every server script of the stated product executed against the real Connection builder. distinct_nontrivial = distinct (listener kind, frames written by the listener, accept() result class) among runs in which the listener's SASL layer answered a client frame with an outcome or challenge, plus distinct (mechanism, server script, result class) among client runs in which the client sent its sasl-init",
+    );
+    out.assume("client actions are injected at quiescent points of the listener (one action, then run to quiescence); byte-level interleavings inside a frame are not explored here (C06)");
+    out.assume("'valid credentials' is read permissively: authcid and password equal; mechanism name and a PLAIN authzid are not judged; extra frames after a valid authentication are not judged");
+    out.assume("OS randomness (nonces, salts) is whatever the deterministic getrandom shim yields; no verdict depends on its value");
+    out
+}
+
+fn replay(p: &std::path::Path, mut out: Outcome) -> Outcome {
+    let s = std::fs::read_to_string(p).unwrap_or_default();
+    let j: J = serde_json::from_str(&s).unwrap_or_default();
+    let r = if j.get("replay").is_some() { j["replay"].clone() } else { j.clone() };
+    let mut acc = Acc::default();
+    match r["part"].as_str() {
+        Some("listener") => {
+            let Some(kind) = LKINDS.iter().copied().find(|k| Some(k.name()) == r["listener"].as_str()) else {
+                out.machinery_errors.push("replay: unknown listener".into());
+                return out;
+            };
+            let alpha = alphabet(kind);
+            let mut seq = vec![];
+            for n in r["actions"].as_array().cloned().unwrap_or_default() {
+                match alpha.iter().find(|a| Some(act_name(kind, **a).as_str()) == n.as_str()) {
+                    Some(a) => seq.push(*a),
+                    None => {
+                        out.machinery_errors.push(format!("replay: unknown action {n}"));
+                        return out;
+                    }
+                }
+            }
+            println!("replaying listener {} {:?} (reference verdict for the stepwise run: {:?})", kind.name(), seq.iter().map(|a| act_name(kind, *a)).collect::<Vec<_>>(), expect(kind, &seq));
+            let burst = r["pipelined"].as_bool().unwrap_or(false);
+            let run = run_listener_case(kind, &seq, burst);
+            if let Some(o) = &run.obs {
+                for l in &o.trace {
+                    println!("  {l}");
+                }
+                println!("  listener wrote (independent reader): {:?}", o.wire);
+            }
+            judge_listener(kind, &seq, burst, &run, &mut acc);
+        }
+        Some("scram-client") => {
+            let (Some(v), Some(sc)) = (r["mechanism"].as_str().and_then(Ver::from_mech), Script::from_json(&r["script"])) else {
+                out.machinery_errors.push("replay: bad scram-client case".into());
+                return out;
+            };
+            println!("replaying SCRAM client {} against server [{}]", v.mech(), sc.label());
+            let run = run_client_case(v, sc);
+            if let Some(o) = &run.obs {
+                for l in &o.trace {
+                    println!("  {l}");
+                }
+                println!("  client wrote (independent reader): {:?}; proof_ok={:?} notes={:?}", o.wire, o.proof_ok, o.notes);
+            }
+            judge_client(v, sc, &run, &mut acc);
+        }
+        _ => {
+            out.machinery_errors.push("replay: no 'part' in the replay file".into());
+            return out;
+        }
+    }
+    for (s, d, rr) in acc.violations.drain(..) {
+        println!("  FAIL {s}: {d}");
+        out.violation(s, d, rr);
+    }
+    out.machinery_errors.extend(acc.machinery.drain(..));
+    out.set("evaluations", 1);
+    out.set("distinct_nontrivial", acc.classes.len() as u64);
+    out.set("samples", json!([r]));
+    out.set("rule", "replay of one case");
+    out.set("exhaustive", false);
+    out.set("bound", "one replayed case");
     out
 }
